@@ -21,7 +21,7 @@ func verifC07(kind, V, rounds int, seed uint32) {
 	// dirty instance: before every real event, a speculative Build that is never processed and a
 	// Process with a wrong claimed frame (symbolic which), then a Build of the real event.
 	dirty := newVNode(r.vals, nil, nil, nil)
-	junk := sym.Choice("junk", 5) // 0: speculative build, 1: wrong frame above, 2: both, 3: decoy build (other parents), 4: draft re-built
+	junk := sym.Choice("junk", 6) // 0: speculative build, 1: wrong frame above, 2: both, 3: decoy build (other parents), 4: draft re-built, 5: small decoy right before the real event
 	last := make([]int, V)        // latest event of every validator among those fed so far
 	for v := range last {
 		last[v] = -1
@@ -91,6 +91,34 @@ func verifC07(kind, V, rounds int, seed uint32) {
 			sym.Assert(dirty.lch.Build(obj) == nil, "Build of the completed event succeeds")
 			sym.Assert(obj.Frame() == e.Frame(), "Build assigns the same frame on the instance with earlier builds/rejections (C07)")
 			sym.Reach("draft-rebuilt")
+		}
+		if inject && junk == 5 {
+			// first the real event is built (its frame must be the clean one: traces of earlier decoys would show
+			// here), then a SMALL decoy of the same creator and sequence number is built -- self-parent plus ONE
+			// recent event of another validator (symbolic which) -- and the real event is processed right after it
+			c := r.d.script[i].creator
+			spec := r.d.materialise(i, 1)
+			sym.Assert(dirty.lch.Build(spec) == nil, "speculative Build succeeds")
+			sym.Assert(spec.Frame() == e.Frame(), "Build assigns the same frame on the instance with earlier builds/rejections (C07)")
+			// the decoy's other parent: any of the four most recently fed events of another validator
+			pi := i - 1 - sym.Choice("decoyParent", 4)
+			if pi >= 0 && r.d.script[pi].creator != c {
+				decoy := &dag.MutableBaseEvent{}
+				decoy.SetEpoch(1)
+				decoy.SetCreator(e.Creator())
+				decoy.SetSeq(e.Seq())
+				var parents hash.Events
+				lamport := r.d.evs[pi].Lamport()
+				if sp := r.d.script[i].self; sp >= 0 {
+					parents = append(parents, r.d.evs[sp].ID())
+					lamport = idx.MaxLamport(lamport, r.d.evs[sp].Lamport())
+				}
+				parents = append(parents, r.d.evs[pi].ID())
+				decoy.SetParents(parents)
+				decoy.SetLamport(lamport + 1)
+				sym.Assert(dirty.lch.Build(decoy) == nil, "Build of a decoy succeeds")
+				sym.Reach("small-decoy")
+			}
 		}
 		dirty.events[e.ID()] = e
 		sym.Assert(dirty.lch.Process(e) == nil, "later events are accepted exactly as on the clean instance (C07)")
@@ -198,10 +226,18 @@ func sameValidators(a, b *pos.Validators) bool {
 	return ok
 }
 
-func verifC09(kind, V, rounds int, seed uint32) {
+func verifC09(kind, V, rounds int, seed uint32) { verifC09x(kind, V, rounds, seed, false) }
+
+// grow: the new validator set has ONE MORE validator than the old one
+func verifC09x(kind, V, rounds int, seed uint32, grow bool) {
+	V2 := V
+	if grow {
+		V2 = V + 1
+		sym.Reach("validator-set-grows")
+	}
 	r := newVRun(kind, V, rounds, seed)
 	reversed := sym.Choice("newOrder", 2) == 1 // the new set keeps / reverses the canonical order of the validators
-	newVals, newWs := vNewWeightsOrd(V, reversed)
+	newVals, newWs := vNewWeightsOrd(V2, reversed)
 	sealAt := idx.Frame(1 + sym.Choice("sealAt", 2)) // the block that seals the epoch
 	r.n0.seal = func(b *vBlock) *pos.Validators {
 		if b.epoch == 1 && b.frame == sealAt {
@@ -242,17 +278,32 @@ func verifC09(kind, V, rounds int, seed uint32) {
 	}
 	// an old-epoch event is no longer accepted into the DAG of the new epoch: Build reports through crit
 	// second epoch: a fresh script under the new weights, on the sealed instance and on an instance Reset directly
-	script2 := vScript(0, V, 5, seed+1)
-	d2 := &vDag{script: script2, evs: make([]*dag.MutableBaseEvent, len(script2)), anc: make([][]bool, len(script2)), V: V}
+	script2 := vScript(0, V2, 5, seed+1)
+	d2 := &vDag{script: script2, evs: make([]*dag.MutableBaseEvent, len(script2)), anc: make([][]bool, len(script2)), V: V2}
 	ref2 := &vRef{d: d2, w: newWs, q: newVals.Quorum(), frames: make([]idx.Frame, len(script2))}
 	if reversed {
-		for v := V - 1; v >= 0; v-- {
+		for v := V2 - 1; v >= 0; v-- {
 			ref2.order = append(ref2.order, v)
 		}
 		sym.Reach("order-reversed")
 	}
 	direct := newVNode(r.vals, nil, nil, nil)
 	sym.Assert(direct.lch.Reset(2, newVals) == nil, "Reset to the new epoch succeeds")
+	// and an instance that sealed the old epoch itself but was given the OLD validator set for the new epoch, and is
+	// then Reset into the epoch it is already in (no frame decided yet) with the new set
+	again := newVNode(r.vals, nil, nil, nil)
+	again.seal = func(b *vBlock) *pos.Validators {
+		if b.epoch == 1 && b.frame == sealAt {
+			return r.vals
+		}
+		return nil
+	}
+	for i := 0; i <= sealedAfter; i++ {
+		again.events[r.d.evs[i].ID()] = r.d.evs[i]
+		sym.Assert(again.lch.Process(r.d.evs[i]) == nil, "every valid event is accepted in any parents-first order (C01)")
+	}
+	sym.Assert(again.store.GetEpoch() == 2 && again.lch.Reset(2, newVals) == nil, "Reset into the current, still blank epoch with another validator set succeeds")
+	nAgainOld := len(again.blocks)
 	// and an instance restarted from the persisted databases right after the seal (C08 across an epoch boundary)
 	restarted := newVNode(nil, copyDB(n.store.mainDB), map[idx.Epoch]kvdb.Store{2: copyDB(n.store.epochDB)}, n.events)
 	sym.Assert(restarted.store.GetEpoch() == 2 && restarted.store.GetLastDecidedFrame() == 0, "epoch and last decided frame survive a restart right after the seal (C08)")
@@ -267,6 +318,8 @@ func verifC09(kind, V, rounds int, seed uint32) {
 		direct.events[e.ID()] = e
 		sym.Assert(direct.lch.Process(e) == nil, "new-epoch event accepted by the instance reset directly to the new epoch")
 		sym.Assert(restarted.lch.Process(e) == nil, "new-epoch event accepted by the instance restarted right after the seal (C08)")
+		again.events[e.ID()] = e
+		sym.Assert(again.lch.Process(e) == nil, "new-epoch event accepted by the instance reset into its current blank epoch")
 	}
 	want := ref2.decideAll()
 	newBlocks := n.blocks[nOld:]
@@ -278,6 +331,7 @@ func verifC09(kind, V, rounds int, seed uint32) {
 		}
 	}
 	sym.Assert(sameBlocks(newBlocks, direct.blocks), "an instance reset directly to the new epoch emits the same blocks")
+	sym.Assert(sameBlocks(newBlocks, again.blocks[nAgainOld:]), "an instance reset into its current blank epoch with the new set emits the same blocks")
 	sym.Assert(sameBlocks(newBlocks, restarted.blocks), "an instance restarted right after the seal emits the same blocks as the one that kept running (C08)")
 	if len(newBlocks) > 0 {
 		sym.Reach("new-epoch-block")
@@ -286,6 +340,7 @@ func verifC09(kind, V, rounds int, seed uint32) {
 
 func VerifH_C09_meshV3()    { verifC09(0, 3, 5, 1) }
 func VerifH_C09_cascadeV4() { verifC09(9, 4, 0, 1) }
+func VerifH_C09_growV3()    { verifC09x(0, 3, 5, 1, true) }
 func VerifH_C09_lcgV3()     { verifC09(4, 3, 7, 7) }
 func VerifH_C09_meshV4()    { verifC09(0, 4, 5, 1) }
 
